@@ -18,7 +18,7 @@
 //
 // modes (--mode): mixed (default), dense (tiny value domain: many duplicates and
 //                 collisions), sparse (wide domain)
-// options (--opt): cfg=N (0..5, fix the configuration; default caseNo % 6),
+// options (--opt): cfg=N (0..7, fix the configuration; default caseNo % 8),
 //                  pool=N (pool size, default random 36..44),
 //                  route_always=1 (self-validation only: run the routing check even after a law was
 //                  found broken; the maps' behaviour is then undefined)
@@ -106,6 +106,22 @@ struct NStore
 	NStore(const std::string & v) : tag(VK_STR), text(v) {}
 };
 
+// a NORMALISING storage: keeps only the text, so values of different types (int 63, long 63, string "63") are stored equal.
+// Ids over it are equal exactly when digest AND text are equal; equal text with different digests must stay unequal ids
+// (otherwise equal ids would hash differently).
+struct TStore
+{
+	std::string text;
+	TStore() {}
+	TStore(const int & v) : text(vf::num(v)) {}
+	TStore(const long & v) : text(vf::num(v)) {}
+	TStore(const char & v) : text(1, v) {}
+	TStore(const std::string & v) : text(v) {}
+	friend bool operator == (const TStore & a, const TStore & b) { ++gEqCalls; return a.text == b.text; }
+	friend bool operator < (const TStore & a, const TStore & b) { ++gLtCalls; return a.text < b.text; }
+};
+static std::string textOf(const PoolVal & v) { return v.kind == VK_STR ? v.str : v.kind == VK_CHAR ? std::string(1, (char)v.num) : vf::num(v.num); }
+
 static_assert(eventpp::anyid_internal_::HasEqual<VStore>::value, "VStore must have ==");
 static_assert(eventpp::anyid_internal_::HasLess<VStore>::value, "VStore must have <");
 static_assert(! eventpp::anyid_internal_::HasEqual<NStore>::value, "NStore must not have ==");
@@ -159,13 +175,16 @@ typedef Cfg<std::hash, eventpp::EmptyAnyStorage, false> Cfg2;
 typedef Cfg<SmallHash, eventpp::EmptyAnyStorage, false> Cfg3;
 typedef Cfg<std::hash, NStore, false> Cfg4;
 typedef Cfg<SmallHash, NStore, false> Cfg5;
-enum { NCFG = 6 };
+typedef Cfg<std::hash, TStore, true> Cfg6;
+typedef Cfg<SmallHash, TStore, true> Cfg7;
+enum { NCFG = 8 };
 static const char * kCfgName[NCFG] = {
 	"AnyId<std::hash,VStore>", "AnyId<SmallHash,VStore>",
 	"AnyId<std::hash,EmptyAnyStorage>", "AnyId<SmallHash,EmptyAnyStorage>",
-	"AnyId<std::hash,NStore>", "AnyId<SmallHash,NStore>"
+	"AnyId<std::hash,NStore>", "AnyId<SmallHash,NStore>",
+	"AnyId<std::hash,TStore(normalising)>", "AnyId<SmallHash,TStore(normalising)>"
 };
-static const char * kStoreName[NCFG] = { "VStore", "VStore", "Empty", "Empty", "NStore", "NStore" };
+static const char * kStoreName[NCFG] = { "VStore", "VStore", "Empty", "Empty", "NStore", "NStore", "TStore", "TStore" };
 
 // ------------------------------------------------------------------ pool generation
 static std::string showVal(const PoolVal & v)
@@ -325,7 +344,9 @@ struct Case
 		oplog("!! " + k + " :: " + desc);
 	}
 	std::string P(int i) const { return "p" + num(i) + "(" + showVal(pool[i]) + ", digest " + num(dg[i]) + ")"; }
-	bool truth(int i, int j) const { return valueTruth ? pool[i].same(pool[j]) : dg[i] == dg[j]; }
+	// equal stored value: same type and value (VStore) / same digest and same text (normalising TStore)
+	bool sameV(int i, int j) const { return store == "TStore" ? (dg[i] == dg[j] && textOf(pool[i]) == textOf(pool[j])) : pool[i].same(pool[j]); }
+	bool truth(int i, int j) const { return valueTruth ? sameV(i, j) : dg[i] == dg[j]; }
 	bool E(int i, int j) const { return eq[(size_t)i * n + j] != 0; }
 	bool L(int i, int j) const { return lt[(size_t)i * n + j] != 0; }
 	bool I(int i, int j) const { return ! L(i, j) && ! L(j, i); }
@@ -375,7 +396,7 @@ struct Case
 			if(i == j) continue;
 			const bool e = E(i, j), l = L(i, j);
 			const bool sameDigest = dg[i] == dg[j];
-			const bool sameValue = pool[i].same(pool[j]);
+			const bool sameValue = sameV(i, j);
 			if(e) ++nEq;
 			if(l) ++nLt;
 			if(i < j) {
@@ -574,6 +595,8 @@ static void runCase(uint64_t caseNo, Rng & rng)
 	case 3: runCfg<Cfg3>(rng, caseNo, 3); break;
 	case 4: runCfg<Cfg4>(rng, caseNo, 4); break;
 	case 5: runCfg<Cfg5>(rng, caseNo, 5); break;
+	case 6: runCfg<Cfg6>(rng, caseNo, 6); break;
+	case 7: runCfg<Cfg7>(rng, caseNo, 7); break;
 	default: --ctx().casesRun; break;
 	}
 }
